@@ -209,6 +209,10 @@ def tree_oracle(args):
 
 
 FIXED = [
+    dict(n=4, instrs=[(0, "G1", [0], "ry", 0.8), (1, "G2", [0, 1], "cx", 0.1), (2, "G1", [1], "ry", 0.9), (3, "G2", [1, 2], "cx", 0.1),
+                      (4, "G1", [2], "ry", 0.6), (5, "G2", [2, 3], "rxx", 0.9)],
+         procs=[{"name": "lowering", "sites": [3], "strength": 0.08}, {"name": "pauli_x", "sites": [1], "strength": 0.03},
+                {"name": "lowering", "sites": [2], "strength": 0.05}, {"name": "pauli_z", "sites": [3], "strength": 0.02}]),
     dict(n=2, instrs=[(0, "G1", [0], "ry", 0.7), (1, "G2", [0, 1], "cx", 0.1)],
          procs=[{"name": "lowering", "sites": [1], "strength": 0.10}, {"name": "pauli_z", "sites": [0], "strength": 0.02}]),
     dict(n=3, instrs=[(0, "G2", [1, 2], "rxx", 0.8), (1, "G1", [0], "rx", 0.5), (2, "G2", [1, 0], "cx", 0.1)],
